@@ -25,6 +25,10 @@ func kernPairWF(k *KernPair) bool {
 //@ safety C10
 //@ requires m != nil && w != nil
 //@ ensures [C13.afm.write] !old(wfault()) && result == nil ==> !wfault()
+//@ loop 1 invariant [C13.afm.write] !old(wfault()) ==> !wfault()
+//@ loop 2 invariant [C13.afm.write] !old(wfault()) ==> !wfault()
+//@ loop 3 invariant [C13.afm.write] !old(wfault()) ==> !wfault()
+//@ loop 4 invariant [C13.afm.write] !old(wfault()) ==> !wfault()
 
 // ---------------------------------------------------------------------
 // C19: query methods
